@@ -79,6 +79,11 @@ func LoadWorld(repo string, overlay map[string][]byte, extraEnv []string) (*Worl
 		}
 	}
 	applyRoles()
+	// read-only methods moved from the pointer to the value receiver (recv.go)
+	if rw, rov := pointerReceiversBack(w, repo, cur, extraEnv); rw != w {
+		w, cur = rw, rov
+		applyRoles()
+	}
 	// reference package functions that became methods (reshape.go)
 	if mw, mov := methodsToFunctions(w, repo, cur, extraEnv); mw != w {
 		w, cur = mw, mov
@@ -91,6 +96,8 @@ func LoadWorld(repo string, overlay map[string][]byte, extraEnv []string) (*Worl
 		applyRoles() // the fields that surfaced may be renamed ones
 	}
 	nw, ov := normaliseHelpers(w, repo, cur, extraEnv)
+	// pre-sized slices filled by index, once per iteration (fillloops.go)
+	nw, ov = fillLoopsToAppends(nw, repo, ov, extraEnv)
 	// an assignment repeated verbatim right after itself (dupstmts.go)
 	nw, ov = dropRepeatedAssignments(nw, repo, ov, extraEnv)
 	// function literals that inlining left without a use (deadlits.go)
